@@ -66,6 +66,8 @@ func c07Cases(thorough bool) []c07Case {
 	// unbounded work
 	for _, p := range []string{"while 1 { }", "i = 0; while 1 { i = i + 1 }", "while true { 1d6 }", "i=0; while i < 100000000 { i = i + 1 }; i",
 		"func f(n) { f(n+1) }; f(0)", "func f(n) { g(n) }; func g(n) { f(n) }; f(1)", "&a = a + 1; a", "&a = b; &b = a; a", "func f(n) { f(n) + f(n) }; f(1)",
+		"func f() { 25000d6 }; while 1 { f() }", "&c = 25000d6; while 1 { c }", "func f() { 250d6 }; while 1 { f() }", "func f() { i = 0; while i < 2000 { i = i + 1 } }; while 1 { f() }",
+		"func f(n) { if n > 0 { f(n-1) }; 20000d2 }; while 1 { f(3) }", "func g() { 9000d2 }; func f() { g() + g() }; while 1 { f() }",
 		"x = [0]; while 1 { x.push(1) }", "s = ''; while 1 { s = s + 'ab' }", "`{% while 1 { 1 } %}`", "func f() { while 1 { 2d6 } }; f()", "[1,2,3].map(func(x) { while 1 {} })"} {
 		add("loop", p, false, "", false)
 	}
@@ -226,7 +228,129 @@ func c07RunOne(c c07Case) c07Obs {
 	return o
 }
 
+// c07Sweep: ordinary programs under tiny budgets, in process: a budget may stop a run with an error, it never changes a result
+func c07Sweep(in string, out string, thorough bool) int {
+	w := newNDWriter(out)
+	defer w.Close()
+	var srcs []string
+	readND(in, func(line []byte) {
+		var rec struct {
+			Src string `json:"src"`
+		}
+		if json.Unmarshal(line, &rec) == nil {
+			srcs = append(srcs, rec.Src)
+		}
+	})
+	limits := []int64{1, 2, 3, 5, 8, 13, 21, 34, 55, 89, 144, 400}
+	n := 0
+	for si, src := range srcs {
+		ref := c07InProc(c07Case{ID: si, Family: "sweep", Prog: src, Limit: 200000, ParseLimit: 10000000})
+		if ref.Panic || ref.Err && strings.Contains(ref.ErrText, "算力") {
+			continue // crashes are C01's; programs that do not end within the reference budget have no reference value
+		}
+		for li, lim := range limits {
+			if !thorough && (si+li)%3 != 0 {
+				continue
+			}
+			c := c07Case{ID: si, Family: "sweep", Prog: src, Limit: lim, ParseLimit: 10000000}
+			// under the budget the run either stops with the budget error or is the reference run
+			if !ref.Err {
+				c.HasExpect, c.Expect = true, ref.Ret
+			}
+			o := c07InProc(c)
+			if o.Err && !strings.Contains(o.ErrText, "算力") && ref.Err {
+				o.HasExpect = false
+			}
+			if !o.Err && ref.Err {
+				// the reference run fails (with an ordinary error): so must every run that is not stopped by the budget
+				o.HasExpect, o.Expect, o.Ret = true, "error: "+ref.ErrText, "value: "+o.Ret
+			}
+			o.Rest = "" // rest text is compared through the value only
+			if c.HasExpect && ref.Rest != "" {
+				o.HasExpect = false
+			}
+			w.Write(o)
+			n++
+		}
+	}
+	emitSummary(map[string]any{"sources": len(srcs), "runs": n})
+	return 0
+}
+
+// c07InProc runs one case in this process (only for programs whose work the budget bounds)
+func c07InProc(c c07Case) c07Obs {
+	o := c07Obs{c07Case: c, Ev: "c07", Monotone: true, ProgLen: len(c.Prog)}
+	src := &xrand.PCGSource{}
+	src.Seed(uint64(envSeed()) + uint64(c.ID))
+	sb, _ := src.MarshalBinary()
+	vm := &ds.Context{Seed: sb}
+	vm.Init()
+	vm.Config.EnableDiceWoD, vm.Config.EnableDiceCoC, vm.Config.EnableDiceFate, vm.Config.EnableDiceDoubleCross = true, true, true, true
+	vm.Config.OpCountLimit = ds.IntType(c.Limit)
+	vm.Config.ParseExprLimit = c.ParseLimit
+	var lastOps int64
+	ds.VerifStepHook = func(info *ds.VerifStepInfo) {
+		o.Dispatches++
+		ops := int64(info.NumOpCount)
+		if ops < lastOps {
+			o.Monotone = false
+		}
+		lastOps = ops
+		o.Ops = ops
+		if ex := o.Dispatches + o.Rolls - 6*ops; ex > o.MaxExcess {
+			o.MaxExcess = ex
+		}
+	}
+	ds.VerifRollHook = func(s *xrand.PCGSource, sides ds.IntType, mode int, orig func() ds.IntType) (ds.IntType, bool) {
+		o.Rolls++
+		if o.Rolls > 3000000 {
+			panic("roll cap of the harness")
+		}
+		return orig(), true
+	}
+	defer func() { ds.VerifStepHook, ds.VerifRollHook = nil, nil }()
+	func() {
+		defer func() {
+			if r := recover(); r != nil {
+				o.Panic, o.PanicText = true, fmt.Sprint(r)
+				if len(o.PanicText) > 200 {
+					o.PanicText = o.PanicText[:200]
+				}
+			}
+		}()
+		if err := vm.Run(c.Prog); err != nil {
+			o.Err, o.ErrText = true, err.Error()
+			if len(o.ErrText) > 200 {
+				o.ErrText = o.ErrText[:200]
+			}
+			return
+		}
+		o.Ret, o.Rest = canon(project(vm.Ret, 0)), vm.RestInput // (canonical: dict keys sorted)
+	}()
+	if int64(vm.NumOpCount) > o.Ops {
+		o.Ops = int64(vm.NumOpCount)
+	}
+	if len(o.Prog) > 300 {
+		o.Prog = o.Prog[:140] + " ... " + o.Prog[len(o.Prog)-140:]
+	}
+	if len(o.Ret) > 200 {
+		o.Ret = o.Ret[:200]
+	}
+	if len(o.Expect) > 200 {
+		o.Expect = o.Expect[:200]
+	}
+	return o
+}
+
 func init() {
+	subcmds["c07-sweep"] = func(args []string) int {
+		fs := newFlags("c07-sweep")
+		in := fs.String("in", "", "inputs ndjson {src}")
+		out := fs.String("out", "", "events ndjson")
+		thorough := fs.Bool("thorough", false, "every budget for every program")
+		fs.Parse(args)
+		return c07Sweep(*in, *out, *thorough)
+	}
 	subcmds["c07-one"] = func(args []string) int {
 		var c c07Case
 		if err := json.NewDecoder(bufio.NewReaderSize(os.Stdin, 1<<20)).Decode(&c); err != nil {
